@@ -106,6 +106,9 @@ func c14W1(b *core.B, r *core.Rng, nProg int) {
 	}
 	fps := map[uint64]bool{}
 	for pi := 0; pi < nProg; pi++ {
+		if c14RaceLogFull(b) {
+			break
+		}
 		salt := fmt.Sprintf("|u%d_%d_%d", b.Seed, b.Batch, pi)
 		p := genProgram(r, 2, func(g *pGen) { g.noAssign = true; g.hashBias = true; g.salt = salt; g.partials = true })
 		text := p.canonical()
@@ -234,6 +237,9 @@ func c14W2(b *core.B, r *core.Rng, rounds int) {
 	plush.CacheEnabled = true
 	defer func() { plush.CacheEnabled = false }()
 	for round := 0; round < rounds; round++ {
+		if c14RaceLogFull(b) {
+			break
+		}
 		texts := []string{}
 		refs := map[string]c14Obs{}
 		for len(texts) < 6 {
@@ -330,6 +336,9 @@ func c14W2(b *core.B, r *core.Rng, rounds int) {
 // goroutines at once, each with its own child of a shared parent.
 func c14W4(b *core.B, r *core.Rng, rounds int) {
 	for round := 0; round < rounds; round++ {
+		if c14RaceLogFull(b) {
+			break
+		}
 		body := genProgram(r, 1, func(g *pGen) { g.noAssign = true; g.noFail = true })
 		loopInBlock := ""
 		if round%16 == 15 {
@@ -445,6 +454,9 @@ func c14W4(b *core.B, r *core.Rng, rounds int) {
 // of them, and is replayed inside loops and inside other helpers' blocks.
 func c14W5(b *core.B, r *core.Rng, rounds int) {
 	for round := 0; round < rounds; round++ {
+		if c14RaceLogFull(b) {
+			break
+		}
 		ctl := []string{"break", "continue"}[round%2]
 		page := "<%= for (q) in [1] { %><% keepSide() { %>[A<% if (odd) { " + ctl + " } %>B|<%= who %>]<% } %><% } %>"
 		layout := []string{
@@ -667,6 +679,9 @@ var c14Model = porcupine.Model{
 
 func c14W3(b *core.B, r *core.Rng, rounds int, record bool) {
 	for round := 0; round < rounds; round++ {
+		if c14RaceLogFull(b) {
+			break
+		}
 		if !b.Begin(fmt.Sprintf("W3 round %d (record=%v)", round, record)) {
 			continue
 		}
@@ -766,6 +781,23 @@ func c14W3(b *core.B, r *core.Rng, rounds int, record bool) {
 			}
 		}
 	}
+}
+
+// c14RaceLogFull: a change that makes every execution race fills the detector's log with
+// hundreds of megabytes of the same few reports. Once this process' log holds more than
+// 16 MB there is nothing more to learn from further rounds: the workload stops early and
+// the reports that are there are attributed as usual (never the case on a tree that holds).
+func c14RaceLogFull(b *core.B) bool {
+	logBase := os.Getenv("VERIF_RACE_LOG")
+	if logBase == "" {
+		return false
+	}
+	st, err := os.Stat(fmt.Sprintf("%s.%d", logBase, os.Getpid()))
+	if err != nil || st.Size() < 16<<20 {
+		return false
+	}
+	b.Count("workload-stopped-early:race-log-over-16MB")
+	return true
 }
 
 var reRaceFrame = regexp.MustCompile(`(?m)^  (\S+)\(.*\)\n\s+(\S+):(\d+)`)
